@@ -2,7 +2,7 @@
     history of Location operations (several locations, both state kinds)
     through the model, and judges every read against the index-free
     specification (the same abstract fact map searched linearly). *)
-From Verif Require Import Json Outcome Match PatIndex State Location.
+From Verif Require Import Json Outcome Match PatIndex State Location SysOps.
 
 Definition classify (e : string) : string :=
   if String.eqb e E_disabled || String.eqb e E_denied || String.eqb e E_capacity ||
@@ -48,81 +48,57 @@ Definition dec_ctx (o : json) : ctx := mkCtx (jfS "rk" o) (jfS "wk" o).
 Definition dec_env (o : json) (now : Z) : env :=
   mkEnv now (jfS "fresh" o) (match jget "aux" o with Some (JNum z) => Some z | _ => None end).
 
-Definition with_loc {A} (sy : system) (name : string) (f : loc -> loc * outcome A)
-  : system * outcome A :=
-  match sys_get sy name with
-  | None => (sy, Err E_noloc)
-  | Some l => let '(l', r) := f l in (sys_set sy name l', r)
+(** Decode an observed operation into a typed Location operation. *)
+Definition dec_op (o : json) : option lop :=
+  let op := jfS "op" o in
+  let id := jfS "id" o in
+  if String.eqb op "addfact" then Some (LAddFact id (jnorm (jget_d "fact" o)))
+  else if String.eqb op "addrule" then Some (LAddRule id (jnorm (jget_d "rule" o)))
+  else if String.eqb op "remfact" then Some (LRemFact id)
+  else if String.eqb op "remrule" then Some (LRemRule id)
+  else if String.eqb op "getfact" then Some (LGetFact id)
+  else if String.eqb op "getrule" then Some (LGetRule id)
+  else if String.eqb op "enablerule" then Some (LEnableRule id (jfB "enable" o))
+  else if String.eqb op "clear" then Some LClear
+  else if String.eqb op "setparents" then Some (LSetParents (map jS (jfL "parents" o)))
+  else if String.eqb op "getparents" then Some LGetParents
+  else if String.eqb op "size" then Some LSize
+  else if String.eqb op "setreadonly" then Some (LSetReadOnly (jfB "ro" o))
+  else if String.eqb op "reload" then Some LReload
+  else if String.eqb op "search" then Some (LSearch (jnorm (jget_d "pattern" o)) (jfB "inherited" o))
+  else if String.eqb op "event" then Some (LEvent (jnorm (jget_d "event" o)))
+  else None.
+
+(** Render a typed result as the canonical observable. *)
+Definition render (op : lop) (r : lres) : json :=
+  match r with
+  | RId o => (match op with LSetParents _ => res_of o (fun _ => []) | _ => res_of o (fun i => [("id", JStr i)]) end)
+  | RBool o => res_of o (fun _ => [])
+  | RJson o => res_of o (fun f => [("val", f)])
+  | RUnit o => res_of o (fun _ => [])
+  | RParents o => res_of o (fun ps => [("parents", JArr (map JStr ps))])
+  | RSize o => res_of o (fun n => [("n", JNum n)])
+  | RFound o =>
+      let inh := match op with LSearch _ i => i | _ => false end in
+      res_of o (fun f => [("found", json_of_found (if inh then map (fun g => ("", snd g)) f else f))])
+  | RChildren o =>
+      (* event errors are only visible as disposition messages *)
+      let o' := match o with
+                | Err x => if String.eqb x E_notfound || String.eqb x E_expired
+                           then Err "other" else Err x
+                | _ => o
+                end in
+      res_of o' (fun ch => [("children", json_of_children ch)])
   end.
 
 (** One operation: new system and the model's observable result. *)
 Definition run_op (sy : system) (o : json) (now : Z) : system * json :=
-  let name := jfS "loc" o in
-  let op := jfS "op" o in
-  let c := dec_ctx o in
-  let e := dec_env o now in
-  let id := jfS "id" o in
-  if String.eqb op "addfact" then
-    let '(sy', r) := with_loc sy name (fun l => loc_add_fact l c e id (jnorm (jget_d "fact" o))) in
-    (sy', res_of r (fun i => [("id", JStr i)]))
-  else if String.eqb op "addrule" then
-    let '(sy', r) := with_loc sy name (fun l => loc_add_rule l c e id (jnorm (jget_d "rule" o))) in
-    (sy', res_of r (fun i => [("id", JStr i)]))
-  else if String.eqb op "remfact" then
-    let '(sy', r) := with_loc sy name (fun l => loc_rem_fact l c e id) in
-    (sy', res_of r (fun _ => []))
-  else if String.eqb op "remrule" then
-    let '(sy', r) := with_loc sy name (fun l => loc_rem_rule l c e id) in
-    (sy', res_of r (fun _ => []))
-  else if String.eqb op "getfact" then
-    let '(sy', r) := with_loc sy name (fun l => loc_get_fact l c e id) in
-    (sy', res_of r (fun f => [("val", f)]))
-  else if String.eqb op "getrule" then
-    let '(sy', r) := with_loc sy name (fun l => loc_get_rule l c e id) in
-    (sy', res_of r (fun f => [("val", f)]))
-  else if String.eqb op "enablerule" then
-    let '(sy', r) := with_loc sy name (fun l => loc_enable_rule l c e id (jfB "enable" o)) in
-    (sy', res_of r (fun _ => []))
-  else if String.eqb op "clear" then
-    let '(sy', r) := with_loc sy name (fun l => loc_clear l c e) in
-    (sy', res_of r (fun _ => []))
-  else if String.eqb op "setparents" then
-    let '(sy', r) := with_loc sy name (fun l => loc_set_parents l c e (map jS (jfL "parents" o))) in
-    (sy', res_of r (fun _ => []))
-  else if String.eqb op "getparents" then
-    let '(sy', r) := with_loc sy name (fun l => loc_get_parents l c e) in
-    (sy', res_of r (fun ps => [("parents", JArr (map JStr ps))]))
-  else if String.eqb op "size" then
-    let '(sy', r) := with_loc sy name (fun l => loc_size l c e) in
-    (sy', res_of r (fun n => [("n", JNum n)]))
-  else if String.eqb op "setreadonly" then
-    let '(sy', r) := with_loc sy name (fun l => (mkLoc (l_state l) (jfB "ro" o) (l_max l), Ok tt)) in
-    (sy', res_of r (fun _ => []))
-  else if String.eqb op "reload" then
-    let '(sy', r) := with_loc sy name (fun l => loc_reload l now) in
-    (sy', res_of r (fun _ => []))
-  else if String.eqb op "search" then
-    match sys_get sy name with
-    | None => (sy, res_of (@Err unit E_noloc) (fun _ => []))
-    | Some _ =>
-        let inh := jfB "inherited" o in
-        let '(sy', r) := sys_search sy name c e (jnorm (jget_d "pattern" o)) inh in
-        (sy', res_of r (fun f => [("found", json_of_found (if inh then map (fun g => ("", snd g)) f else f))]))
-    end
-  else if String.eqb op "event" then
-    match sys_get sy name with
-    | None => (sy, res_of (@Err unit E_noloc) (fun _ => []))
-    | Some _ =>
-        let '(sy', r) := sys_find_rules sy name c e (jnorm (jget_d "event" o)) in
-        (* event errors are only visible as disposition messages *)
-        let r' := match r with
-                  | Err x => if String.eqb x E_notfound || String.eqb x E_expired || String.eqb x E_noloc
-                             then Err "other" else Err x
-                  | _ => r
-                  end in
-        (sy', res_of r' (fun ch => [("children", json_of_children ch)]))
-    end
-  else (sy, JObj [("class", JStr "unknown-op"); ("ok", JBool false)]).
+  match dec_op o with
+  | None => (sy, JObj [("class", JStr "unknown-op"); ("ok", JBool false)])
+  | Some op =>
+      let '(sy', r) := sys_step sy (jfS "loc" o) (dec_ctx o) (dec_env o now) op in
+      (sy', render op r)
+  end.
 
 Definition sys_amb (sy : system) : bool := existsb (fun kv => st_amb (l_state (snd kv))) sy.
 Definition sys_clear_amb (sy : system) : system :=
@@ -252,7 +228,19 @@ Record acc := mkAcc {
   a_amb : Z;
 }.
 
-Definition same_res (m obs : json) : bool := json_eqb m (canon_obs obs).
+(** The indexed state's PatternIndex sorts the event's arrays in place while it
+    searches (SortValues aliases the caller's slice), so a when-variable bound
+    to a whole array is reported in sorted order by the indexed state and in
+    the caller's order by the linear one.  Arrays are sets for the matcher:
+    the bindings of dispatched rules are compared modulo array order. *)
+Definition sort_children (j : json) : json :=
+  match jget "children" j with
+  | Some c => JObj (ainsert "children" (jsort_arrays c) (jO j))
+  | None => j
+  end.
+
+Definition same_res (m obs : json) : bool :=
+  json_eqb (sort_children m) (sort_children (canon_obs obs)).
 
 Definition feat_of_op (o : json) (m : json) : string :=
   String.append (jfS "op" o) (if jfB "ok" m then "+" else String.append "-" (jfS "class" m)).
